@@ -1,6 +1,8 @@
 package main
 
 import (
+	"bytes"
+	stdlog "log"
 	"runtime"
 	"context"
 	"encoding/json"
@@ -12,6 +14,7 @@ import (
 	"sort"
 	"strings"
 	"sync"
+	"sync/atomic"
 	"time"
 
 	"github.com/bmeg/grip/gdbi"
@@ -45,6 +48,10 @@ type c17Input struct {
 	// the batching writer behind driver bulk loads (util.StreamBatch): this many vertices and edges streamed through it with
 	// writers slower than the producer; every element must be handed to a writer exactly once
 	StreamRace int `json:"stream_race,omitempty"`
+	// four schema uploaders against four schema readers, this many uploads each: all must return (no reader/writer deadlock)
+	SchemaRace int `json:"schema_race,omitempty"`
+	// this many times: submit a job over 25 vertices, poll its status, read its rows the moment it is COMPLETE
+	JobRace int `json:"job_race,omitempty"`
 }
 type c17Elem struct {
 	ID    string `json:"id"`
@@ -75,6 +82,15 @@ func (j *jobListStream) Send(q *gripql.QueryJob) error { j.jobs = append(j.jobs,
 func valData(v int) *structpb.Struct {
 	s, _ := structpb.NewStruct(map[string]interface{}{"val": float64(v)})
 	return s
+}
+
+type slowLog struct{}
+
+func (slowLog) Write(p []byte) (int, error) {
+	if bytes.Contains(p, []byte("Job Done")) {
+		time.Sleep(2 * time.Millisecond)
+	}
+	return len(p), nil
 }
 
 var raceFrame = regexp.MustCompile(`^\s+([A-Za-z0-9_./()*\-]+)\(`)
@@ -234,12 +250,100 @@ func concWorker(req json.RawMessage) interface{} {
 			}
 		}
 	}
+	if in.SchemaRace > 0 {
+		var w3 sync.WaitGroup
+		stop := make(chan struct{})
+		for u := 0; u < 4; u++ {
+			w3.Add(1)
+			go func(u int) {
+				defer w3.Done()
+				for k := 0; k < in.SchemaRace; k++ {
+					srv.AddSchema(ctx, &gripql.Graph{Graph: "g1", Vertices: []*gripql.Vertex{{Gid: fmt.Sprintf("S%d", u), Label: fmt.Sprintf("S%d", u), Data: valData(k)}}})
+				}
+			}(u)
+		}
+		for r := 0; r < 4; r++ {
+			go func() {
+				for {
+					select {
+					case <-stop:
+						return
+					default:
+						srv.GetSchema(ctx, &gripql.GraphID{Graph: "g1"})
+					}
+				}
+			}()
+		}
+		fin := make(chan struct{})
+		go func() { w3.Wait(); close(fin) }()
+		select {
+		case <-fin:
+			close(stop)
+		case <-time.After(45 * time.Second):
+			return c17Obs{Err: "schema uploads and reads did not return within 45 s (reader/writer deadlock)", Acks: ob.Acks}
+		}
+		// the server must still answer
+		okc := make(chan struct{})
+		go func() { srv.ListGraphs(ctx, &gripql.Empty{}); close(okc) }()
+		select {
+		case <-okc:
+		case <-time.After(15 * time.Second):
+			return c17Obs{Err: "ListGraphs does not return after the schema race", Acks: ob.Acks}
+		}
+	}
+	if in.JobRace > 0 {
+		// a slow log sink: whatever the spooling goroutine still does after it has published COMPLETE happens late
+		stdlog.SetOutput(slowLog{})
+		defer stdlog.SetOutput(os.Stderr)
+		srv.AddGraph(ctx, &gripql.GraphID{Graph: "jr"})
+		for k := 0; k < 25; k++ {
+			srv.AddVertex(ctx, &gripql.GraphElement{Graph: "jr", Vertex: &gripql.Vertex{Gid: fmt.Sprintf("j%02d", k), Label: "J", Data: valData(k)}})
+		}
+		for k := 0; k < in.JobRace; k++ {
+			job, err := srv.Submit(ctx, &gripql.GraphQuery{Graph: "jr", Query: gripql.NewQuery().V().HasLabel("J").Statements})
+			if err != nil {
+				continue
+			}
+			// three clients poll the job and read its rows the moment it is reported COMPLETE: what the status says
+			// (COMPLETE, count 25) and what a reader gets at that moment must agree
+			var pw sync.WaitGroup
+			var short int32
+			for c := 0; c < 3; c++ {
+				pw.Add(1)
+				go func() {
+					defer pw.Done()
+					for t := 0; t < 400000; t++ {
+						st, err := srv.GetJob(ctx, job)
+						if err == nil && (st.State == gripql.JobState_COMPLETE || st.State == gripql.JobState_ERROR) {
+							break
+						}
+						runtime.Gosched()
+					}
+					vs := &travStream{fakeStream: fakeStream{ctx}}
+					srv.ViewJob(job, vs)
+					if len(vs.rows) != 25 {
+						atomic.AddInt32(&short, 1)
+					}
+				}()
+			}
+			pw.Wait()
+			if short > 0 {
+				ob.IndexMissing++
+			}
+			srv.DeleteJob(ctx, job)
+		}
+	}
 	if in.StreamRace > 0 {
 		stream := make(chan *gdbi.GraphElement, 10)
 		go func() {
 			for i := 0; i < in.StreamRace; i++ {
 				stream <- &gdbi.GraphElement{Graph: "g1", Vertex: &gdbi.Vertex{ID: fmt.Sprintf("sv%d", i), Label: "S"}}
 				stream <- &gdbi.GraphElement{Graph: "g1", Edge: &gdbi.Edge{ID: fmt.Sprintf("se%d", i), Label: "S", From: "a", To: "b"}}
+				if i%7 == 3 {
+					// refused elements: the reading goroutine reports into the same error accumulator as the two writers
+					stream <- &gdbi.GraphElement{Graph: "g1", Vertex: &gdbi.Vertex{ID: "", Label: "S"}}
+					stream <- &gdbi.GraphElement{Graph: "other", Vertex: &gdbi.Vertex{ID: "x", Label: "S"}}
+				}
 			}
 			close(stream)
 		}()
@@ -252,7 +356,11 @@ func concWorker(req json.RawMessage) interface{} {
 				for _, v := range vs {
 					seen[v.ID]++
 				}
+				nb := len(seen)
 				mu.Unlock()
+				if nb%3 == 0 {
+					return fmt.Errorf("vertex store error")
+				}
 				return nil
 			},
 			func(es []*gdbi.Edge) error {
@@ -261,7 +369,11 @@ func concWorker(req json.RawMessage) interface{} {
 				for _, e := range es {
 					seen[e.ID]++
 				}
+				nb := len(seen)
 				mu.Unlock()
+				if nb%2 == 0 {
+					return fmt.Errorf("edge store error")
+				}
 				return nil
 			})
 		for i := 0; i < in.StreamRace; i++ {
@@ -375,7 +487,7 @@ func runC17(ctx *Ctx) error {
 	ctx.CaseTy = "c17_case"
 	ctx.Shard = 40
 	ctx.Scope = "Z_scope"
-	ctx.Rule = "concurrent sessions against one in-process server (verif hook, handlers called directly, badger and pebble): 2..8 client goroutines released together, each running 6..25 random operations: vertex writes on private ids and on three ids shared by all clients, private edges and edge deletes, reads, traversals, ListGraphs/ListLabels, creation+use+deletion of a private graph (which rebuilds the shared graph map), AddSchema/GetSchema on the shared graphs, job submit/list/get/view; plus, on its own, the creation of 150 (thorough 600) graphs by one goroutine each while another writes an edge and a vertex to the graph the moment it is visible (every acknowledged element must be listed by the label index), and 1000 vertices + 1000 edges through util.StreamBatch with writers slower than the producer (each handed over exactly once); the worker binary is built with the Go race detector; observed: which calls were acknowledged, the final vertices/edges of both graphs read through the store, the graph list, deduplicated race reports, process death; non-trivial = at least two sessions write a shared id or rebuild the graph map; distinct by input"
+	ctx.Rule = "concurrent sessions against one in-process server (verif hook, handlers called directly, badger and pebble): 2..8 client goroutines released together, each running 6..25 random operations: vertex writes on private ids and on three ids shared by all clients, private edges and edge deletes, reads, traversals, ListGraphs/ListLabels, creation+use+deletion of a private graph (which rebuilds the shared graph map), AddSchema/GetSchema on the shared graphs, job submit/list/get/view; plus, on its own, the creation of 150 (thorough 600) graphs by one goroutine each while another writes an edge and a vertex to the graph the moment it is visible (every acknowledged element must be listed by the label index), and 1000 vertices + 1000 edges through util.StreamBatch with writers slower than the producer (each handed over exactly once); four schema uploaders against four schema readers (all must return, the server must still answer); 150 jobs whose rows are read the moment their status says COMPLETE (all 25 rows must be there); the worker binary is built with the Go race detector; observed: which calls were acknowledged, the final vertices/edges of both graphs read through the store, the graph list, deduplicated race reports, process death; non-trivial = at least two sessions write a shared id or rebuild the graph map; distinct by input"
 	var inputs []c17Input
 	if ctx.Replay != nil {
 		var in c17Input
@@ -398,7 +510,9 @@ func runC17(ctx *Ctx) error {
 		for _, drv := range []string{"badger", "pebble"} {
 			inputs = append(inputs, c17Input{Sessions: [][]c17Op{}, Driver: drv, CreateRace: ctx.Pick(150, 600)})
 		}
-		inputs = append(inputs, c17Input{Sessions: [][]c17Op{}, Driver: "badger", StreamRace: 1000})
+		inputs = append(inputs, c17Input{Sessions: [][]c17Op{}, Driver: "badger", StreamRace: 1000},
+			c17Input{Sessions: [][]c17Op{}, Driver: "badger", SchemaRace: ctx.Pick(150, 600)},
+			c17Input{Sessions: [][]c17Op{}, Driver: "badger", JobRace: ctx.Pick(150, 900)})
 	}
 	reqs := make([]json.RawMessage, len(inputs))
 	for i, in := range inputs {
